@@ -13,5 +13,6 @@ INVARIANT BasisIndependent
 INVARIANT Polarised
 INVARIANT IntensitySum
 INVARIANT ItemIsComponent
+INVARIANT OnlyNamesAnswered
 INVARIANT Emit
 CHECK_DEADLOCK FALSE
